@@ -323,6 +323,44 @@ func c17Families(tier string) []explore.Family {
 			r.Sample(map[string]any{"case": desc(), "observed": o.String()})
 		}
 	}})
+	// round to 0..4 places on fine binary fractions (k/64 for k in -64..192: exact operands whose digits straddle
+	// every rounding position) and on decimal spellings k/1000 (inexact operands): the result is the exact value of
+	// the float rounded half up, unless that exact value lies within 1e-9 of a tie (float noise may decide there)
+	var fine []float64
+	for k := -64; k <= 192; k++ {
+		fine = append(fine, float64(k)/64)
+	}
+	for k := 0; k <= 400; k++ {
+		fine = append(fine, float64(k)/1000)
+	}
+	fine = append(fine, 19.9949, 19.995, 2.675, 1.005, 0.285, 1234.5678, 0.0449, 0.045, 99.995, 0.3, 1e-7, 123456.789)
+	fams = append(fams, explore.Family{Name: "round-fine-fractions", Count: int64(len(fine) * 5 * 2), Run: func(i int64, r *explore.Rec) {
+		rx := radix{i}
+		neg, p, x := rx.next(2) == 1, int64(rx.next(5)), fine[rx.next(len(fine))]
+		if neg {
+			x = -x
+		}
+		src := fmt.Sprintf("{{ a | round: %d }}", p)
+		desc := func() any { return map[string]any{"template": src, "a": strconv.FormatFloat(x, 'g', -1, 64)} }
+		X := new(big.Rat).SetFloat64(x)
+		scale := new(big.Rat).SetInt(new(big.Int).Exp(big.NewInt(10), big.NewInt(p), nil))
+		sx := new(big.Rat).Mul(X, scale)
+		frac := new(big.Rat).Sub(sx, floorRat(sx))
+		d := new(big.Rat).Sub(frac, big.NewRat(1, 2))
+		d.Abs(d)
+		r.Eval()
+		r.Transition()
+		r.Trace()
+		o := Render(c17.eng, src, map[string]any{"a": x})
+		if d.Sign() != 0 && d.Cmp(big.NewRat(1, 1e9)) < 0 {
+			r.Class("round-fine/near-tie-unspecified")
+			return
+		}
+		e := floorRat(new(big.Rat).Add(sx, big.NewRat(1, 2)))
+		e.Quo(e, scale)
+		judgeNum(r, fmt.Sprintf("round-fine:%d", p), desc, numResult{vals: []*big.Rat{e}}, true, o)
+	}})
+
 	// bounds: floor <= x <= ceil and ceil - floor in {0,1}, on the implementation's own outputs
 	fams = append(fams, explore.Family{Name: "floor-ceil-law", Count: int64(N), Run: func(i int64, r *explore.Rec) {
 		a := c17.n[i]
